@@ -13,6 +13,9 @@ NOTE = ("trusted: go/ssa lowering, the symgo interpreter (cross-checked by nativ
 CLAIMED = {
     # id: (design section, technique)
     "C01": ("§5 C01", "SSA symbolic execution + SMT (bit-vectors): container kernels x kind pairings, sorted-array kernels, Bitmap drivers; pointwise set-algebra oracle"),
+    "C02": ("§5 C02", "SSA symbolic execution + SMT: one inductive step per mutator from an arbitrary well-formed symbolic state, compared with a description-level plain-set model"),
+    "C03": ("§5 C03", "SSA symbolic execution + SMT: every scalar query on symbolic bitmaps against counting/membership oracles over descriptions; read-only-ness by representation snapshot"),
+    "C15": ("§5 C15", "SSA symbolic execution + SMT: neighbour queries with free target and free probe (nearest-ness is universally quantified); per-kind helpers separately"),
 }
 NA = {
     "C12": "schedules/data races of the Go runtime cannot be encoded as SMT inputs by this SSA encoder, and a schedule counterexample could not be replayed (DESIGN §6)",
